@@ -131,9 +131,15 @@ def compare_variant(base, var, oa, ob, cnt, vclass):
     """-> list of violations for one (base, variant) pair."""
     v = _compare_variant(base, var, oa, ob, cnt, vclass)
     if v and f15_shape(base) and vclass.startswith("perm"):
-        for x in v:
-            if not x["signature"].startswith("F16"):
-                x["signature"] = F15_SIG
+        # The known defect lives in the 30-day look-ahead only: without any 30-day leg in either report a
+        # disagreement has another cause and keeps its own signature.
+        def has_bnb(o):
+            return "ok" in o and any(m["rule"] == "BedAndBreakfast" for y in o["ok"]["report"]["tax_years"]
+                                     for d in y["disposals"] for m in d["matches"])
+        if has_bnb(oa) or has_bnb(ob):
+            for x in v:
+                if not x["signature"].startswith("F16"):
+                    x["signature"] = F15_SIG
     return v
 
 
@@ -185,6 +191,41 @@ def _compare_variant(base, var, oa, ob, cnt, vclass):
 MODES = ["reverse", "shuffle", "shuffle", "by_ticker", "sells_first", "interleave"]
 
 
+def split_day_no_bnb_ledger(rng):
+    """Trades and splits sharing dates, but no acquisition within 30 days after any sale: nothing here can be
+    explained by the 30-day look-ahead (finding F15), so any dependence on line order is reported."""
+    import datetime as dt
+    from ..util import iso
+    tk = rng.choice(["SPL", "DAY"])
+    D = dt.date(rng.randint(2016, 2023), rng.randint(1, 12), rng.randint(1, 28))
+    txs = []
+    held = Fraction(0)
+    for _ in range(rng.randint(2, 5)):
+        # a block: buys (+ optional split/unsplit, + optional capital-free sells) all on one date
+        n_buys = rng.randint(1, 2)
+        for _b in range(n_buys):
+            q = rng.choice([10, 20, 100])
+            txs.append({"date": iso(D), "ticker": tk, "kind": "BUY", "amount": str(q), "price": [str(rng.randint(1, 50)), "GBP"],
+                        "fees": ["0", "GBP"]})
+            held += q
+        if rng.random() < 0.8:
+            r = rng.choice(["2", "4", "5", "10"])
+            un = rng.random() < 0.3
+            txs.append({"date": iso(D), "ticker": tk, "kind": "UNSPLIT" if un else "SPLIT", "ratio": r})
+            held = held / int(r) if un else held * int(r)
+        D += dt.timedelta(days=rng.randint(40, 90))
+        if held > 0 and rng.random() < 0.7:
+            # a sale on its own date, more than 31 days before the next block
+            q = Fraction(int(held * rng.choice([1, 2, 3]) / 4))
+            if q > 0:
+                txs.append({"date": iso(D), "ticker": tk, "kind": "SELL", "amount": dstr(q), "price": [str(rng.randint(1, 50)), "GBP"],
+                            "fees": ["1", "GBP"]})
+                held -= q
+            D += dt.timedelta(days=rng.randint(35, 90))
+    rng.shuffle(txs)
+    return txs
+
+
 def run_lib(desc):
     rng = rng_for(PROP, desc["seed"], desc["cls"], desc["shard"])
     opts = Opts(**CLASSES[desc["cls"]])
@@ -195,7 +236,11 @@ def run_lib(desc):
     reqs = []
     meta = []
     for b in range(desc["n"]):
-        base, _ = gen_ledger(rng, opts)
+        if desc["cls"] == "split_on_trade_date" and rng.random() < 0.5:
+            base = split_day_no_bnb_ledger(rng)
+            cnt["bases_split_on_trade_date_without_30day_window"] += 1
+        else:
+            base, _ = gen_ledger(rng, opts)
         variants = [(permute(rng, base, m), "perm:" + m) for m in MODES]
         for _ in range(2):
             fv, info = split_fill(rng, base)
